@@ -1149,6 +1149,33 @@ func (p *prover) proveWith(b *ssa.BasicBlock, extra func(), goals func() []Lin) 
 					progress = true
 				}
 			}
+			// stride: φ starts at a multiple of k and every cycle adds exactly k; X is known to
+			// be a multiple of k (X % k == 0 at this point) and φ < X: then φ <= X - k
+			if c0, k, ok := uniformStride(phi); ok && k >= 2 && c0%k == 0 {
+				instrsOf(p.fn, func(in ssa.Instruction) {
+					rem, isRem := in.(*ssa.BinOp)
+					if !isRem || rem.Op != token.REM {
+						return
+					}
+					if m, isC := constInt(rem.Y); !isC || m != k {
+						return
+					}
+					if !rem.Block().Dominates(p.site.Block()) {
+						return
+					}
+					rl := p.lin(rem)
+					xl := p.lin(rem.X)
+					if g := rl.neg(); !entails(p.relevant(g), g) {
+						return
+					}
+					if g := xl.sub(linAtom(n)).addK(-1); !entails(p.relevant(g), g) {
+						return
+					}
+					p.inv = append(p.inv, Fact{xl.sub(linAtom(n)).addK(-k), fmt.Sprintf("stride: %s and %s are multiples of %d and %s < %s", Term(phi), Term(rem.X), k, Term(phi), Term(rem.X))})
+					p.lemmas["stride"] = true
+					progress = true
+				})
+			}
 			lo, hi := additiveBounds(phi)
 			if lo != nil {
 				p.inv = append(p.inv, geq(linAtom(n), linConst(*lo), "induction: every cycle adds a non-negative constant"))
@@ -1678,3 +1705,35 @@ func yamlUnmarshal(b []byte, v any) error { return yaml.Unmarshal(b, v) }
 
 var _ = constant.MakeBool
 var _ = syntax.Perl
+
+// uniformStride: the phi is c0 on every entry edge and itself plus one positive constant k on
+// every other edge (a counted loop with step k), so φ ≡ c0 (mod k) throughout.
+func uniformStride(phi *ssa.Phi) (c0, k int64, ok bool) {
+	haveC, haveK := false, false
+	for _, e := range phi.Edges {
+		switch x := e.(type) {
+		case *ssa.Const:
+			n, isI := constInt(x)
+			if !isI || (haveC && n != c0) {
+				return 0, 0, false
+			}
+			c0, haveC = n, true
+		case *ssa.BinOp:
+			if x.Op != token.ADD {
+				return 0, 0, false
+			}
+			a, b := x.X, x.Y
+			if _, isC := a.(*ssa.Const); isC {
+				a, b = b, a
+			}
+			n, isI := constInt(b)
+			if a != ssa.Value(phi) || !isI || n <= 0 || (haveK && n != k) {
+				return 0, 0, false
+			}
+			k, haveK = n, true
+		default:
+			return 0, 0, false
+		}
+	}
+	return c0, k, haveC && haveK
+}
